@@ -9,6 +9,7 @@ pub mod c06;
 pub mod c04;
 pub mod c08;
 pub mod c09;
+pub mod c11;
 pub mod c13;
 pub mod c14;
 
@@ -34,6 +35,8 @@ pub fn registry() -> Vec<(&'static str, &'static str, MonFn)> {
         ("c06_diff", "C06", c06::differential as MonFn),
         ("c14_sweep", "C14", c14::sweep as MonFn),
         ("c14_aborts", "C14", c14::aborts as MonFn),
+        ("c11_exh", "C11", c11::exhaustive as MonFn),
+        ("c11_rand", "C11", c11::random as MonFn),
         ("c02_pairs", "C02", c02::pairs as MonFn),
     ]
 }
